@@ -273,5 +273,14 @@ func (w *Witness) signChkpt(n *note.Note) ([]byte, error) {
 	if err != nil {
 		return nil, fmt.Errorf("couldn't sign checkpoint: %v", err)
 	}
+	// The cosigned checkpoint will be stored and must be readable by the next
+	// update: note.Open refuses notes with too many signature lines, and the
+	// witness adds its own to however many the submitted checkpoint carried.
+	// With no verifiers a well-formed note yields an UnverifiedNoteError.
+	if _, err := note.Open(cosigned, note.VerifierList()); err != nil {
+		if _, ok := err.(*note.UnverifiedNoteError); !ok {
+			return nil, fmt.Errorf("cosigned checkpoint would not be readable: %v", err)
+		}
+	}
 	return cosigned, nil
 }
